@@ -143,4 +143,46 @@ def hypsN (T : Tables) (env : Env) (s : Schema) (e : Elem) (t : FormTree) : Bool
 def baseHyps (T : Tables) (env : Env) (s : Schema) (e : Elem) (t : FormTree) : Bool :=
   linked env s e t && formOk T [] t && oneSubmitter t && wfS s && rootOK s && okSB env s e && envOKB env && namesSafe env s
 
+/-! ### Arrays / MultiValues of any size (`end_to_end_arrays_partial`)
+
+`from_flat` reads the members of an Array in the order of its pairs, so the composition must know that
+document order and `flatten()` order agree THERE.  The test: -/
+
+/-- the pairs of every key occur in the same relative order in both lists (`KRel` of
+    Proofs/Lemmas/EndToEndKRel.lean without the permutation, executable) -/
+def keySameB (ps ps' : List (Str × Str)) : Bool :=
+  (ps.map (·.1)).all (fun k => ps.filter (fun p => p.1 == k) == ps'.filter (fun p => p.1 == k))
+
+/-- the hypotheses of `end_to_end_arrays_partial`: `hypsN` WITHOUT `narrowB` (Arrays / MultiValues of
+    any size), without `boolsCanonical` / `dropSafe` — instead the form has NO unchecked box at all
+    (`dropSafe` is false of every schema that contains an Array, so unchecked boxes and Arrays do not
+    combine: `dropSafe_array_false`) — and with `keySameB`: pairs that carry the same key come in the same
+    order in `flatten()` and in the form.  On canonical keys only the members of ONE Array share a key,
+    and both orders are member order; that this ALWAYS holds is measured (c12.py), not proved. -/
+def hypsA (T : Tables) (env : Env) (s : Schema) (e : Elem) (t : FormTree) : Bool :=
+  linked env s e t && formOk T [] t && oneSubmitter t
+    && wfS s && rootOK s && okSB env s e && envOKB env && namesSafe env s
+    && (uncheckedPairs [] t).isEmpty
+    && keySameB (flatten env usep s e) (formPairs [] t)
+
+/-! ### which `(schema, state)` pairs a `FormTree` can be linked to
+
+`FormTree` has constructors for text scalars, Booleans, Arrays / MultiValues of strings, JoinedStrings,
+Dicts (dense or sparse) and Lists — and NONE for a Compound (`DateYYYYMMDD`, …) rendered as its parts'
+inputs.  `linked` is the equation `embed t = resolve env s e`; every node of `embed t` that emits its own
+pair AND lets `flatten()` descend (`fl && cfl`) has no children, whereas a Compound holding at least one
+member resolves to such a node WITH children.  So every end-to-end theorem here is about schemas built
+from String-like scalars, Booleans, Arrays, JoinedStrings, Dicts, SparseDicts and Lists; a Compound can
+only occur with no member present in the state (then it flattens like a scalar).  `formLike` is that
+shape test, `linked_formLike` / `compound_not_linked` (Proofs/EndToEndArrays.lean) the statements. -/
+
+mutual
+/-- the shape of every `embed t`: a node that emits its own pair and is descended into is childless -/
+def formLike : FNode → Bool
+  | .mk _ fl cfl _ _ kids => (!(fl && cfl) || kids.isEmpty) && formLikeL kids
+def formLikeL : List FNode → Bool
+  | [] => true
+  | k :: ks => formLike k && formLikeL ks
+end
+
 end Flatland.EndToEnd
